@@ -4,6 +4,7 @@
    A JSON text enters as [option json]: None = not JSON, Some v = the value encoding/json builds. *)
 From Coq Require Import List NArith Bool String.
 From Snow Require Import Lib.Wire Model.SessDesc Proofs.SessDescProofs.
+From Snow Require Import Model.IpClass Model.SdpStrip Proofs.SdpStripProofs.
 Import ListNotations.
 Open Scope N_scope.
 
@@ -83,3 +84,17 @@ Example C13_fix_conservative_nonvacuous :
   deserialize_v0 (Some (JObj [(bs "type", JStr (bs "answer")); (bs "sdp", JStr (bs "v=0"))])) = Ok (mkDesc TAnswer (bs "v=0"))
   /\ deserialize_v0 (Some (JObj [(bs "type", JStr (bs "offer")); (bs "sdp", JNull)])) = Panic.
 Proof. split; reflexivity. Qed.
+
+(* Peer-address extraction (proxy/lib remoteIPFromSDP) over the parsed SDP ([p] = None: pion/sdp rejects the
+   text; [caps] = what the two c= patterns capture): the modelled step is total, and whatever it returns is
+   never a local, unspecified or loopback address.  Panic freedom of the parsers is observed, not proved. *)
+Theorem C13_peer_addr_total : forall (p : option description) (caps : list (option bytes)),
+  remote_ip p caps = None
+  \/ exists ip, remote_ip p caps = Some ip /\ is_local ip = false /\ is_unspecified ip = false /\ is_loopback ip = false.
+Proof. exact remote_ip_total. Qed.
+
+Example C13_peer_addr_nonvacuous :
+  remote_ip (Some [[mkAttr 0 (Cand Host (Some [10;0;0;1])); mkAttr 1 (Cand Srflx (Some [1;2;3;4]))]]) [] = Some [1;2;3;4]
+  /\ remote_ip (Some [[mkAttr 0 (Cand Host (Some [10;0;0;1]))]]) [None; Some [8;8;8;8]] = Some [8;8;8;8]
+  /\ remote_ip None [Some [8;8;8;8]] = None.
+Proof. repeat split; reflexivity. Qed.
